@@ -96,3 +96,9 @@ func FitsU64(s string) bool           { return false }
 
 // AssumeNoCRLF assumes (and lets the engine exploit syntactically) that s contains no CR or LF.
 func AssumeNoCRLF(s string) {}
+
+// AlgebraDomain reports whether strings are ideal-algebra terms in this run.
+func AlgebraDomain() bool { return true }
+
+// Last returns the most recently created symbolic string variable of that name.
+func Last(name string) string { return "" }
